@@ -155,7 +155,10 @@ def real_child_case(size, pty, straddle):
 def replay(case):
     k = case.get("kind")
     if k == "scripted":
-        why = oracle_scripted(case, run_scripted_case(case))
+        try:
+            why = oracle_scripted(case, common.with_timeout(run_scripted_case, 30, case))
+        except common.Hang:
+            why = "[hang] the run over scripted reads did not return"
         return why is None, why or "ok"
     if k == "real":
         why = real_child_case(case["size"], case["pty"], case["straddle"])
@@ -196,11 +199,17 @@ def run(ctx):
                       "read_size": rng.choice([None, None, 1, 2, 3])})
     lines = ["D|" + ",".join(c["chunks"]) for c in cases]
     model = drv.run(lines) if ctx.model_ok else [None] * len(cases)
-    for c, m in zip(cases, model):
+    results = common.guarded_map(run_scripted_case, cases, stall=30)
+    for (c, got), m in zip(results, model):
         whole = b"".join(bytes.fromhex(x) for x in c["chunks"])
         nontrivial = len(c["chunks"]) > 1 or any(b >= 0x80 for b in whole)
         out.case(c, nontrivial)
-        got = run_scripted_case(c)
+        if isinstance(got, common.Hang):
+            out.fail(c, "[hang] the run over scripted reads did not return")
+            continue
+        if isinstance(got, BaseException):
+            out.fail(c, "[unexpected-exception] %r" % got)
+            continue
         out.hist["scripted:" + c.get("enc", "utf-8")] += 1
         if m is not None and c.get("enc", "utf-8") == "utf-8":
             out.traces += 1
@@ -222,7 +231,9 @@ def run(ctx):
     skipped = 0
     for c in real:
         try:
-            why = real_child_case(c["size"], c["pty"], c["straddle"])
+            why = common.with_timeout(real_child_case, 60, c["size"], c["pty"], c["straddle"])
+        except common.Hang:
+            why = "[hang] real child run did not return"
         except OSError as e:  # no pty available etc.
             skipped += 1
             out.hist["real_skipped:" + type(e).__name__] += 1
